@@ -7,6 +7,7 @@ Request (one case per line, blank-separated tokens, `-` = empty string, `#` = de
   case  := NDECL (p u)*  NEXCL p*  NALIAS (stylesheet-prefix result-prefix)*  NSETS (NATTR (name NSFLAG ns value)*)*  NMOD (parent NDECL (p u)* NEXCL p* NALIAS (sp rp)* NBODY INSTR*)*  SRC  NBODY INSTR*
   SRC   := name uri NATT (qname val)* NKIDS SRC*
   INSTR := L name NDECL (p u)* NATT (qname val)* NEXCL p* NUSE set* NBODY INSTR* | U NUSE set* (first child of E/Y) | K module (xsl:call-template of the module's template)
+         | V k NBODY INSTR* (xsl:variable f<k> holding a result tree fragment) | CV k (xsl:copy-of select="$f<k>")
          | E name NSFLAG ns NBODY INSTR* | A name NSFLAG ns value | T | C k | CA k attr-qname | Y k NBODY INSTR*
 Reply: `S name NATT (qname val)*` / `E name` / `T` events in order, then `|` and the branch tags;
        `BAD` (stylesheet would not compile), `ERR` (exception thrown), `bad` (unparsable request).
@@ -72,6 +73,11 @@ partial def pSrc : P Src
 partial def pInstr : P Instr
   | "T" :: ts => some (.text, ts)
   | "K" :: k :: ts => k.toNat?.map (fun k => (.call k [], ts))
+  | "CV" :: k :: ts => k.toNat?.map (fun k => (.copyVar k, ts))
+  | "V" :: k :: ts => do
+    let k ← k.toNat?
+    let (body, ts) ← pCounted pInstr ts
+    pure (.rtfVar k body, ts)
   | "U" :: ts => do
     let (ks, ts) ← pCounted pNat ts
     pure (.useSets ks, ts)
@@ -121,6 +127,7 @@ def fillCalls (bodies : List (List Instr)) : Instr → Instr
   | .element n ns b => .element n ns (fillCallsList bodies b)
   | .lre n d a e u b => .lre n d a e u (fillCallsList bodies b)
   | .copy k b => .copy k (fillCallsList bodies b)
+  | .rtfVar k b => .rtfVar k (fillCallsList bodies b)
   | i => i
 def fillCallsList (bodies : List (List Instr)) : List Instr → List Instr
   | [] => []
